@@ -12,7 +12,8 @@ zero bitmap); bitmaps are numbers, "bit `i` is set" is `Nat.testBit`, so
 * Part 1 quantifies over **all histories of `syncOwner` calls** (the tracker on its own).
 * Part 2 quantifies over **all histories of cache operations** (insert / replace / refresh, remove, family
   removal on reject, expiry on lookup, janitor + LRU eviction, time passing, deferred refresh worker) and
-  relates the table to the *cache contents*.
+  relates the table to the *cache contents*, at full strength (code after the fix that drops a queued
+  refresh whose entry is no longer the cached one).
 -/
 namespace DaeVerif.C10.Props
 open DaeVerif.C10
@@ -123,91 +124,77 @@ theorem unspecified_lists_nothing :
     ansIps [.a4 0x01020304, .a4m 0x01020304, .a6 (mapped4 0x01020304)] = [mapped4 0x01020304] ∧
     ansIps [.a4m 0] = [mapped4 0] := by decide
 
-/-- The full-strength statement of the property at cache level: after ANY history of cache operations the
-table holds, for every address, exactly the union of the bitmaps of the cached entries listing it.
-**Not provable for the code as it is** — refuted below (`table_mirrors_cache_full_fails`). -/
-def table_mirrors_cache_full : Prop :=
-  ∀ (cfg : Cfg) (ops : List COp) (ip : Ip) (i : Nat),
-    let σ := crun (CState.init cfg) ops
-    (kernelVal σ.tk.K ip).testBit i = true ↔
-      ∃ key e, alLookup key σ.cache = some e ∧ ip ∈ ansIps e.ans ∧ e.bitmap.testBit i = true
-
-/-- **Headline (partial).** After any history of cache operations in which no deferred refresh was applied
-to an entry that had meanwhile been replaced or removed (`staleApplied = false`), bit `i` of what the kernel
-reads for `ip` is set exactly when some *currently cached* entry lists `ip` (among its A/AAAA answers,
-unspecified addresses excluded) and has bit `i` in its domain bitmap.
-Missing for full strength: the hypothesis; `processBpfUpdateTask` does not check that the queued entry is
-still the cached one. -/
-theorem table_mirrors_cache_partial (cfg : Cfg) (ops : List COp) (ip : Ip) (i : Nat)
-    (hs : (crun (CState.init cfg) ops).staleApplied = false) :
+/-- **Headline (full strength).** After ANY history of cache operations — answers cached, replaced or
+refreshed with other addresses or another bitmap, removed, removed as a family on a reject, expired on a
+lookup (cold or hot path), evicted by the janitor or the LRU limit, time passing, the deferred refresh
+worker running at any later point; several names, record types and upstream scopes listing the same
+address; zero bitmaps, empty and unspecified answers — bit `i` of what the kernel reads for `ip` is set
+exactly when some *currently cached* entry lists `ip` and has bit `i` in its domain bitmap. -/
+theorem table_mirrors_cache (cfg : Cfg) (ops : List COp) (ip : Ip) (i : Nat) :
     (kernelVal (crun (CState.init cfg) ops).tk.K ip).testBit i = true ↔
       ∃ key e, alLookup key (crun (CState.init cfg) ops).cache = some e ∧ ip ∈ ansIps e.ans ∧
         e.bitmap.testBit i = true :=
-  (CInv_run ops (CInv_init cfg)).1.cache_bit hs ip i
+  (CInv_run ops (CInv_init cfg)).cache_bit ip i
 
-/-- **No stale or orphaned address (partial, same hypothesis).** Every entry of the table is non-zero and
-its address is listed by a currently cached entry with a non-zero bitmap. -/
-theorem table_no_orphan_partial (cfg : Cfg) (ops : List COp) (ip : Ip) (v : Bitmap)
-    (hs : (crun (CState.init cfg) ops).staleApplied = false)
+/-- **No stale or orphaned address (full strength).** Every entry of the table is non-zero and its address
+is listed by a currently cached entry with a non-zero bitmap. -/
+theorem table_no_orphan (cfg : Cfg) (ops : List COp) (ip : Ip) (v : Bitmap)
     (hv : alLookup ip (crun (CState.init cfg) ops).tk.K = some v) :
     v ≠ 0 ∧ ∃ key e, alLookup key (crun (CState.init cfg) ops).cache = some e ∧ ip ∈ ansIps e.ans ∧
       e.bitmap ≠ 0 :=
-  (CInv_run ops (CInv_init cfg)).1.cache_no_orphan hs ip v hv
+  (CInv_run ops (CInv_init cfg)).cache_no_orphan ip v hv
 
-/-- the same as an equation with the executable specification the driver prints (`m=` flag). -/
-theorem table_eq_spec_partial (cfg : Cfg) (ops : List COp) (ip : Ip)
-    (hs : (crun (CState.init cfg) ops).staleApplied = false) :
+/-- the same as an equation with the executable specification (union of the bitmaps of the cached entries
+listing the address). -/
+theorem table_eq_spec (cfg : Cfg) (ops : List COp) (ip : Ip) :
     kernelVal (crun (CState.init cfg) ops).tk.K ip = specOr (crun (CState.init cfg) ops).cache ip :=
-  (CInv_run ops (CInv_init cfg)).1.kernel_eq_spec hs ip
+  (CInv_run ops (CInv_init cfg)).kernel_eq_spec ip
 
 /-- the executable check the driver prints as `m=` (table = specification on every address that occurs, no
-zero entry) is true whenever `s=0`: a `m=0 s=0` line from the driver is impossible. -/
-theorem driver_mirror_flag_partial (cfg : Cfg) (ops : List COp)
-    (hs : (crun (CState.init cfg) ops).staleApplied = false) :
+zero entry) is always true: a `m=0` line from the driver is impossible. -/
+theorem driver_mirror_flag (cfg : Cfg) (ops : List COp) :
     mirrorOk (crun (CState.init cfg) ops).cache (crun (CState.init cfg) ops).tk.K = true :=
-  (CInv_run ops (CInv_init cfg)).1.mirrorOk_true hs
+  (CInv_run ops (CInv_init cfg)).mirrorOk_true
 
 -- non-vacuity: two scopes of one name plus another name share an address; one expires on lookup, one is
--- replaced with another address; hypothesis holds, table non-empty, cache non-empty.
+-- replaced with another address; a refresh queued for a since-replaced entry is dropped by the worker.
 example :
     let ops : List COp := [.put "a.com.1" 10 none 0b01 [.a4 1, .a4 2], .put "a.com.1|up" 100 none 0b01 [.a4 1],
       .put "b.com.1" 100 none 0b10 [.a4m 1, .a6 0], .sleep (10 * sec), .look "a.com.1" false,
-      .put "b.com.1" 100 none 0b10 [.a4 3], .work]
+      .sleep (60 * sec), .look "b.com.1" false, .put "b.com.1" 100 none 0b10 [.a4 3], .work]
     let σ := crun (CState.init ⟨false, 0, 0⟩) ops
-    σ.staleApplied = false ∧ σ.tk.K = [(mapped4 3, 0b10), (mapped4 1, 0b01)] ∧ σ.cache.length = 2 := by decide
+    σ.tk.K = [(mapped4 3, 0b10), (mapped4 1, 0b01)] ∧ σ.cache.length = 2 ∧ σ.pending = [] := by decide
 
-/-- **Unconditionally** (stale refresh or not) the table mirrors the tracker's own owner snapshots: whatever
-goes wrong can only be a wrong snapshot handed to `syncOwner`, never a wrong batch. -/
-theorem table_mirrors_tracker_always (cfg : Cfg) (ops : List COp) (ip : Ip) (i : Nat) :
+/-- the table also mirrors the tracker's own owner snapshots (so the tracker's owner index is the cache). -/
+theorem table_mirrors_tracker (cfg : Cfg) (ops : List COp) (ip : Ip) (i : Nat) :
     (kernelVal (crun (CState.init cfg) ops).tk.K ip).testBit i = true ↔
       ∃ o s, alLookup o (crun (CState.init cfg) ops).tk.t.owners = some s ∧ ip ∈ s.ips ∧
         s.bitmap.testBit i = true :=
-  (CInv_run ops (CInv_init cfg)).1.tracker_bit ip i
+  (CInv_run ops (CInv_init cfg)).tracker_bit ip i
 
-/-- The hypothesis of the partial theorems holds for every history without a `work` step … -/
-theorem no_work_no_stale (cfg : Cfg) (ops : List COp) (h : ∀ op ∈ ops, op ≠ COp.work) :
-    (crun (CState.init cfg) ops).staleApplied = false :=
-  stale_of_no_work ops (CState.init cfg) h rfl
-
-/-- … and for every history in which each refresh is applied right after the lookup that queued it (the
-worker wins the race): a `work` directly after `look` on an empty queue is never stale. -/
-theorem look_then_work_fresh (σ : CState) (hp : σ.pending = []) (key : String) (ig : Bool) :
-    (cstep (cstep σ (.look key ig)) .work).staleApplied = σ.staleApplied :=
-  look_work_fresh σ hp key ig
-
-/-- **The full statement fails for the code as it is**: insert, wait 60 s, look up (queues a refresh),
-remove, worker runs — the table keeps an address no cached entry lists. -/
-theorem table_mirrors_cache_full_fails : ¬ table_mirrors_cache_full := by
+/-- **Revert witness.** With the worker as it was before the fix (`cstepUnguarded`: a queued refresh is
+applied even when its entry was replaced or removed meanwhile) the headline is false: insert, wait 60 s,
+look up (queues a refresh), remove, worker runs — the table keeps an address no cached entry lists.
+The check's harness replays such histories against the real code on every run. -/
+theorem unguarded_worker_breaks_mirror :
+    ¬ (∀ (cfg : Cfg) (ops : List COp) (ip : Ip) (i : Nat),
+        (kernelVal (crunUnguarded (CState.init cfg) ops).tk.K ip).testBit i = true ↔
+          ∃ key e, alLookup key (crunUnguarded (CState.init cfg) ops).cache = some e ∧ ip ∈ ansIps e.ans ∧
+            e.bitmap.testBit i = true) := by
   intro h
   have := h ⟨false, 0, 0⟩
     [.put "k" 100 none 1 [.a4 1], .sleep (60 * sec), .look "k" false, .del "k", .work] (mapped4 1) 0
-  have hc : (crun (CState.init ⟨false, 0, 0⟩)
+  have hc : (crunUnguarded (CState.init ⟨false, 0, 0⟩)
     [.put "k" 100 none 1 [.a4 1], .sleep (60 * sec), .look "k" false, .del "k", .work]).cache = [] := by decide
-  have hk : (kernelVal (crun (CState.init ⟨false, 0, 0⟩)
+  have hk : (kernelVal (crunUnguarded (CState.init ⟨false, 0, 0⟩)
     [.put "k" 100 none 1 [.a4 1], .sleep (60 * sec), .look "k" false, .del "k", .work]).tk.K (mapped4 1)).testBit 0
       = true := by decide
   obtain ⟨key, e, hl, _, _⟩ := this.mp hk
   rw [hc] at hl
   cases hl
+
+-- the same history on the fixed machine: the task is dropped, the table is empty
+example : (crun (CState.init ⟨false, 0, 0⟩)
+    [.put "k" 100 none 1 [.a4 1], .sleep (60 * sec), .look "k" false, .del "k", .work]).tk.K = [] := by decide
 
 end DaeVerif.C10.Props
